@@ -30,8 +30,8 @@ def HeapKind.isHeap : HeapKind → Bool
 structure HeapRec where
   fill : List Filler
   indent : Nat
-  inuseN : Nat
-  inuseB : Nat
+  inuseN : Int          -- the in-use columns may be negative (`(-?\d+)`: difference profiles)
+  inuseB : Int
   allocN : Nat
   allocB : Nat
   addrs : List Nat
@@ -56,12 +56,17 @@ def heapNumbers (pad : Nat) (a b c d : Nat) : Str :=
   sp pad ++ dec a ++ [58] ++ sp (pad + 1) ++ dec b ++ sp (pad + 1) ++ [91] ++ sp pad ++ dec c ++ [58] ++
     sp (pad + 1) ++ dec d ++ sp pad ++ [93]
 
+/-- the four numbers of a record: the in-use pair is signed -/
+def heapNumbersZ (pad : Nat) (a b : Int) (c d : Nat) : Str :=
+  sp pad ++ intStr a ++ [58] ++ sp (pad + 1) ++ intStr b ++ sp (pad + 1) ++ [91] ++ sp pad ++ dec c ++ [58] ++
+    sp (pad + 1) ++ dec d ++ sp pad ++ [93]
+
 def HeapDoc.headerLine (d : HeapDoc) : Str :=
   asc "heap profile: " ++ heapNumbers d.pad d.totInuseN d.totInuseB d.totAllocN d.totAllocB ++ asc " @ " ++
     d.kind.print ++ (match d.rate with | some r => if d.kind.isHeap then 47 :: dec r else [] | none => [])
 
 def HeapRec.print (pad w : Nat) (r : HeapRec) : Str :=
-  sp r.indent ++ heapNumbers pad r.inuseN r.inuseB r.allocN r.allocB ++ asc " @" ++ printAddrs w r.addrs
+  sp r.indent ++ heapNumbersZ pad r.inuseN r.inuseB r.allocN r.allocB ++ asc " @" ++ printAddrs w r.addrs
 
 def HeapDoc.sentinel (d : HeapDoc) : Str := if d.libs then sentinelMappedLibraries else sentinelMemoryMap
 
@@ -87,7 +92,8 @@ def HeapDoc.period (d : HeapDoc) : Nat :=
   | _ => 1
 
 def HeapRec.wf (hasAlloc : Bool) (r : HeapRec) : Bool :=
-  r.fill.all Filler.wf && r.inuseN < two63 && r.inuseB < two63 && r.allocN < two63 && r.allocB < two63 &&
+  r.fill.all Filler.wf && decide (-(two63 : Int) ≤ r.inuseN ∧ r.inuseN < (two63 : Int)) &&
+  decide (-(two63 : Int) ≤ r.inuseB ∧ r.inuseB < (two63 : Int)) && r.allocN < two63 && r.allocB < two63 &&
   (r.inuseN != 0 || r.inuseB == 0) && (!hasAlloc || r.allocN != 0 || r.allocB == 0) &&
   r.addrs.all (· < two64)
 
@@ -97,15 +103,17 @@ def HeapDoc.wf (d : HeapDoc) : Bool :=
   (match d.map with | none => true | some m => m.wf)
 
 /-- The float part of `scaleHeapSample`: `(count, size, rate) ↦ (int64(count·s), int64(size·s))`
-with `s = 1/(1−exp(−(size/count)/rate))` — a parameter of the model. -/
-abbrev ScaleFn := Nat → Nat → Nat → Int × Int
+with `s = 1/(1−exp(−(size/count)/rate))` — a parameter of the model; count and size are signed
+(negative in-use columns of difference profiles go through the same formula). -/
+abbrev ScaleFn := Int → Int → Nat → Int × Int
 
-/-- `addValues` on one (count, size) pair: the documented unsampling rule. -/
-def unsample (scale : ScaleFn) (v2 : Bool) (rate : Nat) (c s : Nat) : Int × Int :=
-  if c == 0 then (0, (s : Int))
-  else if !v2 then ((c : Int), (s : Int))
+/-- `addValues` on one (count, size) pair: the documented unsampling rule.  Only a count of
+exactly 0 is left alone; negative counts are unsampled like positive ones. -/
+def unsample (scale : ScaleFn) (v2 : Bool) (rate : Nat) (c s : Int) : Int × Int :=
+  if c == 0 then (0, s)
+  else if !v2 then (c, s)
   else if s == 0 then (0, 0)
-  else if rate ≤ 1 then ((c : Int), (s : Int))
+  else if rate ≤ 1 then (c, s)
   else scale c s rate
 
 def heapSampleTypes (hasAlloc : Bool) : List ValueType :=
@@ -117,13 +125,15 @@ def heapHeader (hasAlloc : Bool) (period : Nat) : Header :=
     durationNanos := 0, dropFrames := allocRxStr, keepFrames := allocSkipRxStr }
 
 /-- values, block size and addresses of one record (shared shape of expected and parser). -/
-def heapSample (scale : ScaleFn) (hasAlloc v2 : Bool) (rate : Nat) (inN inB alN alB : Nat) (addrs : List Nat) : RawSample :=
-  let a := unsample scale v2 rate alN alB
+def heapSample (scale : ScaleFn) (hasAlloc v2 : Bool) (rate : Nat) (inN inB : Int) (alN alB : Nat) (addrs : List Nat) : RawSample :=
+  let a := unsample scale v2 rate (alN : Int) (alB : Int)
   let i := unsample scale v2 rate inN inB
-  let blocksize : Nat := if inN != 0 then inB / inN else if hasAlloc && alN != 0 then alB / alN else 0
+  -- block size: bytes/count (Go integer division) of the in-use pair unless its count is 0, then
+  -- of the alloc pair (when reported)
+  let blocksize : Int := if inN != 0 then goDiv inB inN else if hasAlloc && alN != 0 then ((alB / alN : Nat) : Int) else 0
   { addrs := addrs.map decr64,
     values := if hasAlloc then [a.1, a.2, i.1, i.2] else [i.1, i.2],
-    numLabel := [(asc "bytes", [(blocksize : Int)])] }
+    numLabel := [(asc "bytes", [blocksize])] }
 
 def expectedHeap (scale : ScaleFn) (d : HeapDoc) : Profile :=
   let ss := d.recs.map (fun r => heapSample scale d.hasAlloc d.v2 d.period r.inuseN r.inuseB r.allocN r.allocB r.addrs)
@@ -185,11 +195,31 @@ def parseHeapHeader (line : Str) : Outcome (Bool × Nat × Bool) :=
       else if name == asc "heap" then .ok (true, period / 2, hasAlloc)
       else .err "unrecognized"
 
-/-- heapSampleRE `(\d+): *(\d+) *\[ *(\d+): *(\d+) *] @([ x0-9a-f]*)` at one position (non-negative
-counts; blanks in front of the first number are skipped, which gives the captures of the
-regexp's leftmost match) → four captures and the address text -/
+/-- ` *(-?\d+):` → capture, rest -/
+def reSNumColon (s : Str) : Option (Str × Str) := do
+  let (a, s) ← reSDigits (skipSp s)
+  let s ← stripPrefix [58] s
+  pure (a, s)
+
+/-- ` *(-?\d+) *c` for a literal byte `c` → capture, rest -/
+def reSNumThen (c : UInt8) (s : Str) : Option (Str × Str) := do
+  let (a, s) ← reSDigits (skipSp s)
+  let s ← stripPrefix [c] (skipSp s)
+  pure (a, s)
+
+/-- ` *(-?\d+): *(-?\d+) *\[ *(\d+): *(\d+) *\]` → four captures, rest -/
+def reFourNumbersZ (s : Str) : Option (Str × Str × Str × Str × Str) := do
+  let (a, s) ← reSNumColon s
+  let (b, s) ← reSNumThen 91 s
+  let (c, s) ← reNumColon s
+  let (d, s) ← reNumThen 93 s
+  pure (a, b, c, d, s)
+
+/-- heapSampleRE `(-?\d+): *(-?\d+) *\[ *(\d+): *(\d+) *] @([ x0-9a-f]*)` at one position (blanks in
+front of the first number are skipped, which gives the captures of the regexp's leftmost
+match) → four captures and the address text -/
 def matchHeapSampleAt (s : Str) : Option (Str × Str × Str × Str × Str) := do
-  let (a, b, c, d, s) ← reFourNumbers s
+  let (a, b, c, d, s) ← reFourNumbersZ s
   let s ← stripPrefix (asc " @") s
   pure (a, b, c, d, s.takeWhile (fun x => x.toNat == 32 || x.toNat == 120 || isHexLower x))
 
@@ -198,7 +228,7 @@ def parseHeapSample (scale : ScaleFn) (line : Str) (rate : Nat) (v2 hasAlloc : B
   match searchRe matchHeapSampleAt line with
   | none => .err "unexpected number of sample values"
   | some (a, b, c, d, addrText) =>
-    match parseI64 a, parseI64 b, parseI64 c, parseI64 d with
+    match parseI64Z a, parseI64Z b, parseI64 c, parseI64 d with
     | some inN, some inB, some alN, some alB =>
       if hasAlloc && alN == 0 && alB != 0 then .err "allocation count was 0 but bytes was not"
       else if inN == 0 && inB != 0 then .err "inuse count was 0 but bytes was not"
